@@ -14,6 +14,8 @@ limitations under the License.
 package db
 
 import (
+	"strings"
+
 	"github.com/golang/glog"
 	"github.com/miekg/dns"
 )
@@ -66,7 +68,8 @@ func AdditionalSectionForRecords(r Reader, a *dns.Msg, loc *Location, qclass uin
 		want6 := !HasRecord(a, name, dns.TypeAAAA)
 
 		if want4 || want6 {
-			if offset, err = dns.PackDomainName(name, packedName, 0, nil, false); err != nil {
+			// database keys are lower case, whatever the case of the name in the query or rdata
+			if offset, err = dns.PackDomainName(strings.ToLower(name), packedName, 0, nil, false); err != nil {
 				glog.Errorf("Failed at packing domain name %s %v", name, err)
 				continue
 			}
